@@ -426,6 +426,13 @@ func runEDrop(c *Ctx, r *Report, rels []string, min int) {
 			r.Pass("E-DROP", s.Key, c.pos(s.Pos), "c: "+why)
 			continue
 		}
+		// a drop that moved, with its statement, into an unexported helper called from one function only: the row
+		// frozen for that function and callee, if the site it names is no longer there, goes with it
+		if row, why := movedDropRow(c, s, drops); row != "" {
+			classes["c"]++
+			r.Pass("E-DROP", s.Key, c.pos(s.Pos), "c: (row "+row+", whose site now lies in this helper of that function) "+why)
+			continue
+		}
 		name := "<dynamic call>"
 		if s.Callee != nil {
 			name = shortObj(s.Callee)
@@ -532,4 +539,61 @@ func positiveArgsAt(c *Ctx, s dropSite) string {
 		}
 	}
 	return "the call was not found in the SSA form"
+}
+
+// movedDropRow finds the frozen row that covered a dropped error before its statement was moved into a helper: the
+// site's function must be unexported and called from exactly one other function of its package (which may in turn be
+// such a helper, up to three levels), and that function must own a frozen row for the same callee whose site no
+// longer exists there.
+func movedDropRow(c *Ctx, s dropSite, drops []dropSite) (string, string) {
+	if s.Fd == nil || s.Pkg == nil || s.Callee == nil {
+		return "", ""
+	}
+	present := map[string]bool{}
+	for _, d := range drops {
+		present[d.Key] = true
+	}
+	name := s.Key[strings.Index(s.Key, ":")+1:]
+	name = name[:strings.LastIndex(name, "#")]
+	cur := s.Fd
+	for depth := 0; depth < 3; depth++ {
+		if cur.Name.IsExported() {
+			return "", ""
+		}
+		helper := s.Pkg.TypesInfo.Defs[cur.Name]
+		if helper == nil {
+			return "", ""
+		}
+		var callers []*ast.FuncDecl
+		for _, f := range s.Pkg.Syntax {
+			for _, d := range f.Decls {
+				fd, ok := d.(*ast.FuncDecl)
+				if !ok || fd.Body == nil || fd == cur {
+					continue
+				}
+				uses := false
+				ast.Inspect(fd.Body, func(n ast.Node) bool {
+					if id, ok := n.(*ast.Ident); ok && s.Pkg.TypesInfo.Uses[id] == helper {
+						uses = true
+					}
+					return true
+				})
+				if uses {
+					callers = append(callers, fd)
+				}
+			}
+		}
+		if len(callers) != 1 {
+			return "", ""
+		}
+		caller := fdKey(s.Pkg, callers[0])
+		for k := 0; k < 8; k++ {
+			row := fmt.Sprintf("%s:%s#%d", caller, name, k)
+			if why, ok := frozenDrops[row]; ok && !present[row] && !strings.HasPrefix(why, "dimensions are >= 1: a preceding guard") {
+				return row, why
+			}
+		}
+		cur = callers[0]
+	}
+	return "", ""
 }
